@@ -65,7 +65,8 @@ CLAIMED["C02"] = dict(
     "the latter also for the variant that starts at column n-m-k). "
     "The first clause holds for every remaining shape as well (C02_copy_found, C02_locate_copy_found; Proofs/AlignCopyGen.v): for all types whose aligner may stop anywhere in the read (regular/non-internal 5', 'anywhere', regular 3', anchored 5'), "
     "an error-free occurrence adapter[rs,rs+L) = read[p,p+L) with rs = 0 or p = 0 as the type allows, ending at the end of the adapter or (partial adapter) of the read, at least min_overlap long, is always reported -- including a read lying inside an 'anywhere' adapter. "
-    "PARTIAL: the three cut-position clauses and that the k-mer prefilter lets such reads through (C07 proves it for whole-adapter matches) are not theorems; they rest on the correspondence (model match_to_prefiltered = implementation match_to for all eight classes) and on oracle_C02 "
+    "'Reported' means match_to with its prefilter: C02_found_is_reported (by C07_no_change). "
+    "PARTIAL: the three cut-position clauses are not theorems; they rest on the correspondence (model match_to_prefiltered = implementation match_to for all eight classes) and on oracle_C02 "
     "(planted admissible occurrences verified by textbook distance, exhaustive enumeration of admissible interval quadruples in small scope, leftmost/rightmost exact-copy cut clauses) run against the implementation.",
     technique="Coq proof (comparers; exact tracking of the diagonal of an error-free copy; completeness of the banded DP for occurrences with errors via the lower-bound invariant, all on the column fold of the Aligner.locate model) + extracted-model differential correspondence of prefiltered match_to; brute-force oracle search on the implementation",
     design="6/C02",
